@@ -19,7 +19,8 @@ func init() {
 			"R3 on segment rollover the write position is advanced to the new segment before the forced sync, the reader's change of segment requests a sync, and the I/O loop performs a requested sync before the next read or select; " +
 			"R4 every filesystem-mutating call reachable from the queue's loop, constructor and Close is one of the reviewed crash points; a new or moved site fails until reviewed; " +
 			"R5 writer and reader reopen a segment at the persisted position (Seek to writePos / readPos); " +
-			"R6 after a read error the reader's look-ahead position is re-established from the already advanced read position (next file, offset 0).",
+			"R6 after a read error the reader's look-ahead position is re-established from the already advanced read position (next file, offset 0); " +
+			"R9 the constructor cuts the write segment back to the persisted write position before the I/O loop starts (the reader is buffered, so anything a crash left behind writePos could otherwise be cached and delivered in place of later messages).",
 		NotDecided: "what a reopened queue actually delivers from each intermediate on-disk state (needs execution or a model of the file system); torn writes inside a record.",
 		Rules: []RuleDef{
 			{ID: "C08.R1", Min: 1, Doc: "data before metadata: path enumeration of (*DiskQueue).sync", Run: c08r1},
@@ -29,6 +30,7 @@ func init() {
 			{ID: "C08.R5", Min: 2, Doc: "resume at persisted position: Seek(writePos/readPos, 0) follows the open of the segment under `pos > 0`", Run: c08r5},
 			{ID: "C08.R6", Min: 2, Doc: "handleReadError: nextReadFileNum is loaded from readFileNum after its increment; nextReadPos is 0 or loaded from readPos after it was set to 0", Run: c08r6},
 			{ID: "C08.R8", Min: 5, Doc: "what recovery reads back is what was written: reader and writer agree on the record format, the roll condition and the accepted record lengths, and re-opening the queue removes or renames no segment ; a segment is only removed after its last record was delivered, and it is the finished segment that is removed (rules C09.R5, C09.R8 and C09.R2 evaluated for this property as well)", Run: func(c *Check) { c09r5(c); c09r8(c); c09r2(c) }},
+			{ID: "C08.R9", Min: 1, Doc: "nothing behind the persisted write position survives a reopen: readOne reads through a read-ahead buffer, so NewDiskQueue truncates fileName(writeFileNum) to writePos after retrieveMetaData and before `go ioLoop`, on every path except `the file cannot be examined` and `it is not longer than writePos` — otherwise records a crash left behind writePos are cached by the reader, overwritten in the file by the writer and delivered instead of what was enqueued after the restart", Run: c08r9},
 			{ID: "C08.R7", Min: 3, Doc: "metadata content: persistMetaData writes, and retrieveMetaData reads back, depth, readFileNum, readPos, writeFileNum, writePos in this order with the same format string; the consumer cursor (not the read-ahead cursor nextRead*) is what is persisted, and the read-ahead cursor is re-derived from it on load", Run: c08r7},
 		},
 	})
@@ -638,7 +640,7 @@ func fsMutation(in ssa.Instruction) (string, bool) {
 			return "", false // no O_CREATE
 		}
 		return "os.OpenFile(create)", true
-	case "(*os.File).Write", "(*os.File).Sync", "os.Rename", "os.Remove", "os.MkdirAll", "(*os.File).Truncate", "os.Create", "os.RemoveAll", "os.WriteFile", "io/ioutil.WriteFile":
+	case "(*os.File).Write", "(*os.File).Sync", "os.Rename", "os.Remove", "os.MkdirAll", "(*os.File).Truncate", "os.Truncate", "os.Create", "os.RemoveAll", "os.WriteFile", "io/ioutil.WriteFile":
 		return n, true
 	case "fmt.Fprintf", "fmt.Fprintln", "fmt.Fprint":
 		if mi, ok := writerArg(cc.Args[0]).(*ssa.MakeInterface); ok && mi.X.Type().String() == "*os.File" {
@@ -771,6 +773,7 @@ var reviewedCrashPoints = map[string]struct {
 	"os.Remove on fileName":                   {2, "moveForward removes a fully consumed segment after needSync was set (R3); skipToNextRWFile removes segments on Empty"},
 	"os.Rename on fileName":                   {1, "handleReadError sets a corrupt segment aside (.bad) and schedules a sync (R3, R6)"},
 	"os.Remove on metaDataFileName":           {1, "deleteAllFiles removes the metadata on Empty/Delete"},
+	"os.Truncate on fileName":                 {1, "NewDiskQueue cuts the write segment back to the persisted writePos before the I/O loop starts (R9); idempotent, removes nothing below the persisted position"},
 	"os.MkdirAll on field dataPath":           {1, "NewDiskQueue creates the data directory; idempotent"},
 }
 
